@@ -197,4 +197,78 @@ theorem address_roundtrip (a : Bytes) (h : a.length = 20) :
   · rw [address_parse_iff]; exact ⟨by simp [address0xString, trim0x, hexDecode_hexEncode], h⟩
   · rw [address_parse_iff]; exact ⟨by simp [addressPlainString, trim0x_hexEncode, hexDecode_hexEncode], h⟩
 
+/-! ### integers print as 0x-hex without leading zeros and parse back -/
+
+theorem digitVal_hexChar (n : Nat) (h : n < 16) : digitVal (hexChar n) = some n ∧ hexChar n ≠ '_' := by
+  have : ∀ m : Fin 16, digitVal (hexChar m.val) = some m.val ∧ hexChar m.val ≠ '_' := by decide
+  exact this ⟨n, h⟩
+
+/-- scanning the hex digits of `n` (followed by `rest`) shifts the accumulator by the digits and adds `n` -/
+theorem scanDigits_natToHex (n : Nat) : ∀ (rest : List Char) (st : ScanSt),
+    ∃ k, 0 < k ∧ scanDigits 16 (natToHex n ++ rest) st =
+      scanDigits 16 rest { st with acc := st.acc * 16 ^ k + n, count := st.count + k, prevDigit := true, prevSep := false } := by
+  induction n using Nat.strongRecOn with
+  | _ n ih =>
+    intro rest st
+    rw [natToHex]
+    split
+    · rename_i hlt
+      obtain ⟨hd, hne⟩ := digitVal_hexChar n hlt
+      refine ⟨1, by omega, ?_⟩
+      simp only [List.singleton_append, scanDigits, hne, if_false, hd, hlt, if_true, Nat.pow_one]
+    · rename_i hge
+      obtain ⟨k, hk, hq⟩ := ih (n / 16) (by omega) ([hexChar (n % 16)] ++ rest) st
+      obtain ⟨hd, hne⟩ := digitVal_hexChar (n % 16) (by omega)
+      refine ⟨k + 1, by omega, ?_⟩
+      rw [List.append_assoc, hq]
+      simp only [List.singleton_append, scanDigits, hne, if_false, hd, show n % 16 < 16 by omega, if_true]
+      congr 2
+      rw [Nat.pow_succ]
+      have : n / 16 * 16 + n % 16 = n := by omega
+      calc (st.acc * 16 ^ k + n / 16) * 16 + n % 16
+          = st.acc * (16 ^ k * 16) + (n / 16 * 16 + n % 16) := by rw [Nat.add_mul, Nat.mul_assoc, Nat.add_assoc]
+        _ = st.acc * (16 ^ k * 16) + n := by rw [this]
+
+/-- **HexUint64 / non-negative HexInteger: print, then parse, is the identity.** -/
+theorem hex_print_parse (n : Nat) : setString0 (hexUint64String n) = some (n : Int) := by
+  unfold hexUint64String setString0
+  cases hh : natToHex n with
+  | nil =>
+    -- never empty
+    rw [natToHex] at hh
+    split at hh <;> simp at hh
+  | cons c cs =>
+    have hscan : scanNat0 ('0' :: 'x' :: c :: cs) = some n := by
+      obtain ⟨k, hk, hq⟩ := scanDigits_natToHex n [] ⟨0, 0, true, false, false⟩
+      rw [List.append_nil, hh] at hq
+      unfold scanNat0
+      have hx1 : ¬ (('x' : Char) = 'b' ∨ ('x' : Char) = 'B') := by decide
+      have hx2 : ¬ (('x' : Char) = 'o' ∨ ('x' : Char) = 'O') := by decide
+      have hx3 : (('x' : Char) = 'x' ∨ ('x' : Char) = 'X') := Or.inl rfl
+      simp only [hx1, hx2, hx3, if_false, if_true]
+      rw [hq]
+      simp [scanDigits]
+      omega
+    simp [hscan]
+
+/-- the hex digits carry no leading zero (except for zero itself, printed "0") -/
+theorem natToHex_no_leading_zero (n : Nat) (hn : 0 < n) : (natToHex n).head? ≠ some '0' := by
+  induction n using Nat.strongRecOn with
+  | _ n ih =>
+    rw [natToHex]
+    split
+    · rename_i hlt
+      have : ∀ m : Fin 16, 0 < m.val → ([hexChar m.val] : List Char).head? ≠ some '0' := by decide
+      exact this ⟨n, hlt⟩ hn
+    · rename_i hge
+      have h16 : 0 < n / 16 := by omega
+      have := ih (n / 16) (by omega) h16
+      cases hq : natToHex (n / 16) with
+      | nil =>
+        rw [natToHex] at hq
+        split at hq <;> simp at hq
+      | cons c cs =>
+        rw [hq] at this
+        simpa using this
+
 end FFS.Props.C19
